@@ -2,7 +2,7 @@
    Property theorems only. *)
 From Coq Require Import ZArith List Bool.
 From Coq Require Import Permutation.
-From CTM Require Import Base.Sx Base.SortX Model.Tree Model.Election Model.Gather Proofs.ElectionP Proofs.PipelineP.
+From CTM Require Import Base.Sx Base.SortX Model.Tree Model.Election Model.Gather Model.Vote Model.VoteDecide Proofs.ElectionP Proofs.PipelineP Proofs.VoteDecideP.
 Import ListNotations.
 Open Scope Z_scope.
 
@@ -35,6 +35,24 @@ Theorem c01_total :
       exists rows g', run_type_assignment cell rng decide t cells g = Ok (rows, g').
 Proof. exact routing_total. Qed.
 Print Assumptions c01_total.
+
+(* The two hypotheses on `decide` are met by the vote itself: Model/VoteDecide.v builds the decision
+   procedure from the vote model (one list of bootstrap subsets per call, every cell tallied
+   against the leaves below the parent, children sorted by votes, choose_node) for ANY reference
+   data, query rows, draws and number of runners-up — provided only that every parent has a leaf
+   below it and at least the winner is reported.  So the election run WITH THE VOTE maps every
+   cell onto a root-to-leaf path and never fails: *)
+Theorem c01_election_with_the_vote :
+  forall (cell rng : Type) (refs_at : option (nat * node) -> list vec) (owners_at : option (nat * node) -> list Z)
+         (q_at : cell -> option (nat * node) -> vec) (draw : rng -> option (nat * node) -> list (list nat) * rng)
+         (n_assign : nat) (corr_at : cell -> option (nat * node) -> Z -> frac),
+    (forall p, refs_at p <> []) -> (1 <= n_assign)%nat ->
+    forall t cells g, tree_ok t ->
+    exists rows g',
+      run_type_assignment cell rng (decide_vote cell rng refs_at owners_at q_at draw n_assign corr_at) t cells g = Ok (rows, g') /\
+      spec_routing t (length cells) rows = true.
+Proof. exact vote_election_total. Qed.
+Print Assumptions c01_election_with_the_vote.
 
 (* The mapping stage as a whole.  The query — cells with pairwise distinct ids — is cut into
    consecutive chunks `parts` (ANY split: every chunk size and worker count), chunk i is mapped
@@ -84,4 +102,22 @@ Example c01_stage_example :
              [50; 60; 70; 80; 90] [3; 1; 4] [2; 0; 1]%nat
   = Some (combine [50; 60; 70; 80; 90]
             (match run_type_assignment Z nat ex_decide ex_tree [5; 6; 7; 8; 9] 0%nat with Ok (rows, _) => rows | _ => [] end)).
+Proof. vm_compute. reflexivity. Qed.
+
+(* the election with the vote on the example taxonomy: cell 6 resembles leaf 110, cells 5 and 7 leaf 111 *)
+Example c01_vote_example :
+  (* parent (0,1): leaves 100 | 110 111 owned by its children 10 | 11 11;  parent (1,11): leaves 110 111 *)
+  let refs_at := fun p : option (nat * node) =>
+      match p with Some (0%nat, _) => [[2; 1; 4]; [1; 0; 2]; [0; 3; 1]] | _ => [[1; 0; 2]; [0; 3; 1]] end in
+  let owners_at := fun p : option (nat * node) =>
+      match p with Some (0%nat, _) => [10; 11; 11] | _ => [110; 111] end in
+  let q_at := fun (c : Z) (_ : option (nat * node)) => if Z.even c then [2; 0; 4] else [0; 6; 2] in
+  let draw := fun (g : nat) (_ : option (nat * node)) => ([[0; 1; 2]; [0; 2]; [1; 2]]%nat, S g) in
+  match run_type_assignment Z nat (decide_vote Z nat refs_at owners_at q_at draw 2 (fun _ _ _ => (1, 2))) ex_tree [5; 6; 7] 0%nat with
+  | Ok (rows, _) => map (map (fun r => (asg r, prob r))) rows =
+      [ [(1, (1, 1)); (11, (2, 3)); (111, (2, 3))];
+        [(1, (1, 1)); (10, (2, 3)); (100, (1, 1))];
+        [(1, (1, 1)); (11, (2, 3)); (111, (2, 3))] ]
+  | _ => False
+  end.
 Proof. vm_compute. reflexivity. Qed.
